@@ -80,14 +80,14 @@ pub fn stake_history(out: &mut crate::Out, tag: &str, seed: u64, net: NetID, sta
     let keys: Vec<tmelcrypt::Ed25519PK> = d.wal.keys.iter().map(|k| k.0).collect();
     // stake documents over all orderings of (current epoch, start, end) and the other defects
     let cases: Vec<(i64, i64, u128, u32)> = vec![
-        (1, 2, 0, 0), (1, 3, 0, 0), (2, 3, 0, 0), (0, 2, 0, 0), (1, 1, 0, 0), (2, 1, 0, 0), (-1, 2, 0, 0), (1, 2, 1, 0), (1, 2, 0, 1), (1, 2, 0, 2), (1, 4, 0, 0),
+        (1, 2, 0, 9), (1, 2, 0, 0), (1, 3, 0, 0), (2, 3, 0, 0), (0, 2, 0, 0), (1, 1, 0, 0), (2, 1, 0, 0), (-1, 2, 0, 0), (1, 2, 1, 0), (1, 2, 0, 1), (1, 2, 0, 2), (1, 4, 0, 0),
     ];
     for (ci, (ds, de, diff, mode)) in cases.iter().enumerate() {
         let sp = d.spendable();
         let sym = sp.iter().find(|(_, x)| x.coin_data.denom == Denom::Sym && x.coin_data.value.0 > 1000);
         let fee = sp.iter().find(|(_, x)| x.coin_data.denom == Denom::Mel && x.coin_data.value.0 > 1_000_000);
         let (Some(sym), Some(fee)) = (sym.cloned(), fee.cloned()) else { break };
-        let amount = sym.1.coin_data.value.0 / 2;
+        let amount = if *mode == 9 { 0 } else { sym.1.coin_data.value.0 / 2 };   // mode 9: a stake of zero SYM (declared 0)
         let start = (epoch0 as i64 + ds).max(0) as u64;
         let end = (epoch0 as i64 + de).max(0) as u64;
         if let Some(t) = stake_tx(&mut d, &sym, &fee, amount, amount + diff, start, end, ci % 4, *mode) {
@@ -180,6 +180,7 @@ pub fn stake_history(out: &mut crate::Out, tag: &str, seed: u64, net: NetID, sta
     }
     let mut sealed = d.seal_next(Some(true)).unwrap();
     d.w.votes(sealed, epoch0, &keys);
+    crate::chaindrive::proofs(&mut d.w, sealed);
     // walk over the boundary block by block, then jump epoch by epoch
     for _ in 0..4 {
         for (t, _, _) in staked.clone().iter() {
@@ -207,6 +208,8 @@ pub fn stake_history(out: &mut crate::Out, tag: &str, seed: u64, net: NetID, sta
             let wa = if d.r.gen_bool(0.5) { Some(true) } else { None };
             sealed = d.seal_next(wa).unwrap();
             let twin = d.w.restart(sealed);
+            crate::chaindrive::proofs(&mut d.w, sealed);
+            crate::chaindrive::proofs(&mut d.w, twin);
             // the twin's next block boundary must look the same
             let key = format!("C08|{}|next|{}", tag, d.w.sealed(sealed).header().height.0);
             let _ = (twin, key);
